@@ -55,6 +55,36 @@ theorem boost_sorted_except_promotion (l : List FileEnt) (h : Desc (·.score) l)
     | [_], _, _, hlen => simp at hlen
     | [_, _], _, _, hlen => simp at hlen
 
+/-- **the single documented promotion**: `boostNovelExtension` at offset 2 either leaves the list alone or moves exactly
+    one element `x` — the *first* one after the top two whose score is at least 9/10 of the third's and whose extension
+    is not among the top two — to index 2, keeping the relative order of all others. -/
+theorem promotion_rule (a b c0 : FileEnt) (rest : List FileEnt) :
+    boostNovelExtension (a :: b :: c0 :: rest) 2 9 10 = a :: b :: c0 :: rest ∨
+    ∃ i x, (c0 :: rest)[i]? = some x ∧
+      boostNovelExtension (a :: b :: c0 :: rest) 2 9 10 = a :: b :: x :: (c0 :: rest).eraseIdx i ∧
+      c0.score * 9 ≤ x.score * 10 ∧ x.ext ≠ a.ext ∧ x.ext ≠ b.ext ∧
+      ∀ j y, j < i → (c0 :: rest)[j]? = some y → (y.score * 10 < c0.score * 9 ∨ y.ext = a.ext ∨ y.ext = b.ext) := by
+  unfold boostNovelExtension
+  by_cases hlen : (a :: b :: c0 :: rest).length ≤ 2 + 1
+  · left; rw [if_pos hlen]
+  · rw [if_neg hlen]
+    simp only [List.take_succ_cons, List.take_zero, List.drop_succ_cons, List.drop_zero]
+    cases hf : findNovel (List.map (fun x => x.ext) [a, b]) 9 10 c0.score (c0 :: rest) with
+    | none => left; rfl
+    | some i =>
+      obtain ⟨x, hx, hratio, hext, hfirst⟩ := findNovel_spec _ 9 10 c0.score (c0 :: rest) i hf
+      right
+      refine ⟨i, x, hx, by simp [hx], by omega, ?_, ?_, ?_⟩
+      · have : x.ext ≠ a.ext ∧ x.ext ≠ b.ext := by simpa [List.contains_cons] using hext
+        exact this.1
+      · have : x.ext ≠ a.ext ∧ x.ext ≠ b.ext := by simpa [List.contains_cons] using hext
+        exact this.2
+      · intro j y hj hy
+        rcases hfirst j y hj hy with h | h
+        · exact Or.inl h
+        · right
+          simpa [List.contains_cons] using h
+
 /-- **files are ordered by non-increasing score except for the single documented promotion** (`SortFiles`): for every
     list of file matches the result is a permutation of the input that satisfies the statement's predicate. -/
 theorem files_sorted_except_promotion (ms : List FileEnt) :
